@@ -106,7 +106,7 @@ func selftest(b builds, cfg tierCfg, nseeds, nprocs int) selfTestResult {
 }
 
 func doSelftest(b builds, cfg tierCfg, nseeds, nprocs int) int {
-	oi := buildOracle(b, cfg)
+	oi := buildOracle(b, cfg, nil)
 	if oi.viol != nil {
 		fmt.Println("selftest: the sequential reference is not consistent on this tree; run the check instead")
 		return 2
